@@ -1,7 +1,179 @@
 import Driver.Common
-open Drv
+import KatdalModel.Model.ApplyCalFloat
+open Np Drv ApplyCal
 
-/-- stub driver for C14: replaced when the property's model lands -/
-def step (_line : String) : String := "bad-op"
+/-!
+  requests (S-expression tokens, see ApplyCalFloat.lean):
+
+  names ( str s ) | ( seq s .. )   ( stream .. )
+      -> `ok ( mirror names ) skip ( spec names )` | `E:ValueError`
+  stitch ( part .. )     part = ( ( t ( c .. ) ) .. )
+      -> `ok ( ( t ( c .. ) ) .. ) ( spec, same form )` | `E:KeyError`
+  cinterp h|i ( ( x c ) .. ) ( x .. )           -> `ok ( c .. )`
+  gain ( ( start _|( c .. ) ) .. ) nDumps _|( target .. )
+      -> `ok ( ( c .. ) .. ) ( spec, same form )`
+  bandpass ( datafreq .. ) ( calfreq .. ) ( c .. )   -> `ok ( c .. )`
+  delay _|f ( freq .. )                               -> `ok ( c .. )`
+  flux ( ( start _|( c .. ) ( name .. ) ) .. ) ( ( name _|f ) .. )
+      -> `ok ( ( start _|( c .. ) ) .. )`
+  gflux ( measured ) _|( overrides ) ( segs as for flux ) nDumps
+      -> `ok ( ( c .. ) .. )`    mergeFlux ∘ calibrateFlux ∘ gainCorrection (no targets), the "G" pipeline
+-/
+
+def A := floatAlg
+def R := floatOps
+
+def showRow (l : List CF) : String := showList showCF l
+def showRows (l : List (List CF)) : String := showList showRow l
+
+def parseReq (x : SX) : Option Req :=
+  match x with
+  | .list [.atom "str", s] => s.str?.map Req.str
+  | .list (.atom "seq" :: l) => (l.mapM SX.str?).map Req.seq
+  | _ => none
+
+def doNames (args : List SX) : Option String :=
+  match args with
+  | [req, streams] => do
+    let req ← parseReq req
+    let streams ← streams.listOf? SX.str?
+    let spec : Except Err (List String) := do
+      let l ← (selectionToList req streams Tables.defaultCalProducts).mapM (expandName streams)
+      pure l.flatten
+    pure (match normaliseCalProducts req streams, spec with
+      | .ok (l, skip), .ok sp => s!"ok {showList showStr l} {if skip then 1 else 0} {showList showStr sp}"
+      | .ok (l, skip), .error e => s!"ok {showList showStr l} {if skip then 1 else 0} {showErr e}"
+      | .error e, _ => showErr e)
+  | _ => none
+
+def parsePart (x : SX) : Option (Part (List CF)) :=
+  x.listOf? fun e => match e with
+    | .list [t, v] => do pure ((← t.int?), (← v.listOf? SX.cf?))
+    | _ => none
+
+def insertInt (a : Int) : List Int → List Int
+  | [] => [a]
+  | b :: t => if a < b then a :: b :: t else if a = b then b :: t else b :: insertInt a t
+
+/-- spec of the stitched product: for every time in the union, the parts' values or invalid -/
+def specStitch (parts : List (Part (List CF))) : List (Int × List CF) :=
+  let times := parts.foldr (fun p acc => p.foldr (fun e acc => insertInt e.1 acc) acc) []
+  times.map fun t => (t, fillPieces A (parts.map (lookupTime t)))
+
+def showEvents (l : List (Int × List CF)) : String :=
+  showList (fun e => s!"( {e.1} {showRow e.2} )") l
+
+def doStitch (args : List SX) : Option String :=
+  match args with
+  | [parts] => do
+    let parts ← parts.listOf? parsePart
+    pure (match stitch A parts with
+      | .ok evs => s!"ok {showEvents evs} {showEvents (specStitch parts)}"
+      | .error e => showErr e)
+  | _ => none
+
+def parseEdge : SX → Option Edge
+  | .atom "h" => some .hold
+  | .atom "i" => some .invalid
+  | _ => none
+
+def doCinterp (args : List SX) : Option String :=
+  match args with
+  | [e, pts, xs] => do
+    let e ← parseEdge e
+    let pts ← pts.listOf? fun p => match p with
+      | .list [x, c] => do pure ((← x.float?), (← c.cf?))
+      | _ => none
+    let xs ← xs.listOf? SX.float?
+    pure s!"ok {showRow (xs.map (complexInterp A R e pts))}"
+  | _ => none
+
+def parseSegs (x : SX) : Option (List (Nat × Option (List CF))) :=
+  x.listOf? fun e => match e with
+    | .list (s :: v :: _) => do pure ((← s.nat?), (← SX.optOf? (·.listOf? SX.cf?) v))
+    | _ => none
+
+def doGain (args : List SX) : Option String :=
+  match args with
+  | [segs, n, tg] => do
+    let segs ← parseSegs segs
+    let n ← n.nat?
+    let tg ← SX.optOf? (·.listOf? SX.nat?) tg
+    let mirror := gainCorrection A R segs n tg
+    let evs := segs.filterMap fun sg => sg.2.map fun g => (sg.1, g)
+    let nChan := match evs with | [] => 1 | e :: _ => e.2.length
+    let tgl := tg.getD (List.replicate n 0)
+    let spec := (List.range n).map fun d => (List.range nChan).map fun c =>
+      A.inv (match evs with | [] => A.nan | _ => specGain A R evs tgl d c)
+    pure s!"ok {showRows mirror} {showRows spec}"
+  | _ => none
+
+def doBandpass (args : List SX) : Option String :=
+  match args with
+  | [df, cf, bp] => do
+    let df ← df.listOf? SX.float?
+    let cf ← cf.listOf? SX.float?
+    let bp ← bp.listOf? SX.cf?
+    pure s!"ok {showRow (bandpassCorrection A R df cf bp)}"
+  | _ => none
+
+def doDelay (args : List SX) : Option String :=
+  match args with
+  | [d, fr] => do
+    let d ← d.optFloat?
+    let fr ← fr.listOf? SX.float?
+    pure s!"ok {showRow (delayCorrection A R d fr)}"
+  | _ => none
+
+def parseTable (x : SX) : Option (List (String × Option Float)) :=
+  x.listOf? fun e => match e with
+    | .list [n, v] => do pure ((← n.str?), (← v.optFloat?))
+    | _ => none
+
+def parseSegNames (x : SX) : Option (List (Nat × List String)) :=
+  x.listOf? fun e => match e with
+    | .list [s, _, names] => do pure ((← s.nat?), (← names.listOf? SX.str?))
+    | _ => none
+
+def showSegs (l : List (Nat × Option (List CF))) : String :=
+  showList (fun e => s!"( {e.1} {match e.2 with | none => "_" | some v => showRow v} )") l
+
+def namesFn (tab : List (Nat × List String)) (d : Nat) : List String :=
+  match tab.find? (·.1 == d) with
+  | some e => e.2
+  | none => []
+
+def doFlux (args : List SX) : Option String :=
+  match args with
+  | [segs, table] => do
+    let names ← parseSegNames segs
+    let segs ← parseSegs segs
+    let table ← parseTable table
+    pure s!"ok {showSegs (calibrateFlux A R segs (namesFn names) table)}"
+  | _ => none
+
+def doGflux (args : List SX) : Option String :=
+  match args with
+  | [measured, overrides, segs, n] => do
+    let measured ← parseTable measured
+    let overrides ← SX.optOf? parseTable overrides
+    let names ← parseSegNames segs
+    let segs ← parseSegs segs
+    let n ← n.nat?
+    let cal := calibrateFlux A R segs (namesFn names) (mergeFlux measured overrides)
+    pure s!"ok {showRows (gainCorrection A R cal n none)}"
+  | _ => none
+
+def step (line : String) : String :=
+  match parseLine line with
+  | some (.atom "names" :: args) => (doNames args).getD "bad-op"
+  | some (.atom "stitch" :: args) => (doStitch args).getD "bad-op"
+  | some (.atom "cinterp" :: args) => (doCinterp args).getD "bad-op"
+  | some (.atom "gain" :: args) => (doGain args).getD "bad-op"
+  | some (.atom "bandpass" :: args) => (doBandpass args).getD "bad-op"
+  | some (.atom "delay" :: args) => (doDelay args).getD "bad-op"
+  | some (.atom "flux" :: args) => (doFlux args).getD "bad-op"
+  | some (.atom "gflux" :: args) => (doGflux args).getD "bad-op"
+  | _ => "bad-op"
 
 def main : IO Unit := Drv.loop step
